@@ -168,6 +168,9 @@ namespace occa {
                              const dim_t count) const {
     if (!isInitialized()) return memory();
 
+    OCCA_ERROR("Cannot have a negative offset (" << offset << ")",
+               offset >= 0);
+
     const int dtypeSize = modeMemory->dtype_->bytes();
     const dim_t offset_ = dtypeSize * offset;
     const dim_t bytes  = dtypeSize * ((count == -1)
